@@ -4,7 +4,6 @@ use crate::Stamp;
 #[derive(Debug)]
 pub(crate) struct ChangeData<T> {
     pub prev_stamp: Stamp,
-    pub prev_stored_len: usize,
     pub truncated_start: usize,
     pub truncated_values: Vec<T>,
     pub prev_pushed: Vec<T>,
